@@ -208,7 +208,7 @@ func execRead(out *core.Out, id string, st *Stream, exp []Ev, ex rdExec, r *gen.
 			if err := c.ReadJSON(&v); err != nil {
 				return fail("readjson", fmt.Sprintf("ReadJSON of message %d failed: %v", i, err))
 			}
-			json.Unmarshal(exp[i].Data, &want)
+			json.NewDecoder(bytes.NewReader(exp[i].Data)).Decode(&want) // the first JSON value of the message
 			if !reflect.DeepEqual(v, want) {
 				return fail("readjson-mismatch", fmt.Sprintf("ReadJSON of message %d decoded a different value", i))
 			}
